@@ -126,6 +126,8 @@ impl PhysicalOperator for MorselAggregateExec {
         // Dense direct-address fast path: single bounded int group key with
         // simple aggregates skips hash tables AND the merge.
         if let Some(stream) = self.try_execute_dense_direct()? {
+            #[cfg(feature = "verif-hooks")]
+            crate::verif_hooks::mark("agg.morsel_dense");
             return Ok(stream);
         }
 
